@@ -78,9 +78,15 @@ def gen(seed, tier):
                 ops += ['C %d' % txdev, 'T %d' % r.choice([0, 10, 100, 200]), msg(r, txdev, X, r.choice([6, 20, 100]), src=15, dst=255), msg(r, txdev, Y, 9, src=15, dst=255), 'T 300']
             elif z < 0.7:
                 ops += [msg(r, txdev, X, r.choice([9, 14, 20]), tp=1, src=15, dst=255)] + ['T 60', 'P'] * 6      # the BAM session (<= 3 packets) ends before the next one
-            else:
+            elif z < 0.85:
                 ops += [msg(r, ndev + 1, X, 20, src=15, dst=255), msg(r, txdev, 0, 20, src=15, dst=255)]
+            else:
+                # the application declares its transmit list again at run time (ExtendTransmitMessages keeps a pointer; same PGNs, any order):
+                # the sequence ids go on (seed C01-15)
+                ops += ['W t %d %s' % (txdev, r.choice(['%d,%d' % (X, Y), '%d,%d' % (Y, X), '%d,%d,127250' % (X, Y)]))]
             ops += [msg(r, txdev, X, r.choice([7, 20, 223]), src=15, dst=255), msg(r, txdev, Y, 13, src=15, dst=255), msg(r, txdev, X, 8, src=15, dst=255)]
+        ops += ['W t %d %s' % (txdev, r.choice(['%d,%d' % (X, Y), '%d,%d' % (Y, X)])), msg(r, txdev, X, 20, src=15, dst=255), msg(r, txdev, Y, 9, src=15, dst=255),
+                msg(r, txdev, X, 7, src=15, dst=255)]
         ops += ['T 1300', 'P', 'P']
         cases.append(cfg + ' | ' + ' ; '.join(ops))
     # the application declares / replaces its PGN lists at run time (Set/Extend...Messages are plain setters): the classification of the
@@ -117,6 +123,9 @@ def oracle(case, res):
         elif o and o[0] == 'L' and len(o) >= 3:
             cfg = dict(cfg)
             cfg[('sf0', 'sf1', 'fp0', 'fp1')[int(o[1])]] = [int(x) for x in o[2].split(',') if x and x != '-']
+        elif o and o[0] == 'W' and len(o) >= 4 and o[1] == 't' and 0 <= int(o[2]) < ndev:
+            cfg = dict(cfg)
+            cfg['tx%d' % int(o[2])] = [int(x) for x in o[3].split(',') if x and x != '-']
         if not o or o[0] != 'S':
             continue
         idev, pri, pgn, msrc, mdst, tp = int(o[1]), int(o[2]), int(o[3]), int(o[4]), int(o[5]), o[6] == '1'
